@@ -3,6 +3,8 @@
 package pubsub
 
 import (
+	"time"
+
 	pb "github.com/libp2p/go-libp2p-pubsub/pb"
 	"github.com/libp2p/go-libp2p/core/peer"
 )
@@ -53,8 +55,68 @@ func vpH_C09_rpc() {
 		vpAssert(!seen, "a graylisted peer's published messages are ignored")
 		vpAssert(w.inMeshNow(i) == w.mesh[i], "a graylisted peer's control messages are ignored")
 	}
+	if !gray {
+		// (the statement's "RPCs from direct peers are always accepted" and, without a gater, everybody at or above the
+		// graylist threshold: payload enters the pipeline, control reaches the router)
+		vpAssert(seen, "the payload of an accepted peer enters the validation pipeline")
+		if w.joined && !w.mesh[i] {
+			// the GRAFT was looked at: the sender is now a member, or it was refused with a PRUNE
+			wire := vpReadWire(w.q[i])
+			vpAssert(w.inMeshNow(i) || wire.prune == 1, "the control part of an accepted peer's RPC reaches the router (GRAFT admitted or answered with PRUNE)")
+		}
+	}
 	vpCover(gray && w.joined && !w.mesh[i], "graylisted GRAFT ignored")
 	vpCover(!gray && seen, "accepted payload")
+	vpCover(!gray && w.joined && !w.mesh[i] && w.inMeshNow(i), "accepted GRAFT")
+}
+
+// gater: with the validation-overload gater installed and in an ARBITRARY state (throttle/validate counters, quiet period
+// age, per-source statistics: solver variables; its random draw: arbitrary in [0,1)), the router's AcceptFrom yields
+// AcceptAll for direct peers, AcceptNone below the graylist threshold and otherwise only AcceptAll or AcceptControl; and
+// the real handleIncomingRPC then drops at most the PAYLOAD of the RPC - its control part always reaches the router.
+// Engine-only (the gater's random draw has no native realisation).
+func vpH_C09_gater() {
+	vpOpt("native", 0)
+	gp := &PeerGaterParams{Threshold: 0.33, GlobalDecay: 0.9, SourceDecay: 0.999, DecayInterval: time.Second, DecayToZero: 0.01,
+		RetainStats: time.Hour, Quiet: time.Minute, DuplicateWeight: 0.125, IgnoreWeight: 1, RejectWeight: 16}
+	w := vpNewWorld(vpWorldCfg{P: 2, params: vpSmallParams(), scoring: true, direct: true, noFanout: true, opts: []Option{WithPeerGater(gp)}})
+	gs, ps := w.n.gs, w.n.ps
+	pg := gs.gate
+	vpAssert(pg != nil, "gater installed")
+	i := vpInt("peer", 0, w.P-1)
+	vpAssume(w.up[i])
+	p := w.peers[i]
+	pg.lastThrottle = w.now.Add(-time.Duration(vpInt("since_last_throttle", 0, 1<<37)))
+	pg.throttle, pg.validate = vpFloat("gater_throttle"), vpFloat("gater_validate")
+	st := &peerGaterStats{deliver: vpFloat("src_deliver"), duplicate: vpFloat("src_duplicate"), ignore: vpFloat("src_ignore"), reject: vpFloat("src_reject")}
+	vpAssume(pg.throttle >= 0 && pg.throttle < 1e9 && pg.validate >= 0 && pg.validate < 1e9)
+	vpAssume(st.deliver >= 0 && st.deliver < 1e9 && st.duplicate >= 0 && st.duplicate < 1e9 && st.ignore >= 0 && st.ignore < 1e9 && st.reject >= 0 && st.reject < 1e9)
+	if vpBool("source_has_stats") {
+		pg.peerStats[p] = st
+	}
+	topic := vpT0
+	m := &pb.Message{From: []byte("A"), Seqno: []byte("1"), Data: []byte("x"), Topic: &topic}
+	rpc := &RPC{RPC: pb.RPC{Publish: []*pb.Message{m}, Control: vpGraftCtl(vpT0)}, from: p}
+	ps.mySubs[vpT0] = map[*Subscription]struct{}{}
+	ps.handleIncomingRPC(rpc)
+	gray := !w.direct[i] && w.score[i] < gs.graylistThreshold
+	seen := ps.seenMessage(ps.idGen.ID(&Message{Message: m}))
+	wire := vpReadWire(w.q[i])
+	looked := !(w.joined && !w.mesh[i]) || w.inMeshNow(i) || wire.prune == 1
+	if gray {
+		vpAssert(!seen && w.inMeshNow(i) == w.mesh[i] && wire.prune == 0, "a graylisted peer is ignored entirely, gater or not")
+	} else {
+		vpAssert(looked, "the gater never suppresses control traffic: the GRAFT of a peer at or above the graylist threshold reaches the router whatever the gater decides")
+		if w.direct[i] {
+			vpAssert(seen, "RPCs from direct peers are always accepted in full, gater or not")
+		}
+		quiet := w.now.Sub(pg.lastThrottle) > gp.Quiet
+		if quiet || pg.throttle == 0 {
+			vpAssert(seen, "outside a throttling episode the gater accepts the payload")
+		}
+	}
+	vpCover(!gray && !seen && w.joined && !w.mesh[i] && w.inMeshNow(i), "payload suppressed by the gater, GRAFT of the same RPC admitted")
+	vpCover(!gray && seen && !w.direct[i] && pg.throttle > 0, "payload accepted during a throttling episode")
 }
 
 // gossip: below the gossip threshold IHAVE is ignored and IWANT unanswered.
@@ -148,6 +210,63 @@ func vpH_C09_px() {
 
 var _ = peer.ID("")
 
+// px_records: a peer-exchange entry is followed only when it carries no record at all or a VALID signed record that
+// names the advertised peer; an undecodable envelope, a valid envelope of another record type and a valid peer record
+// naming a DIFFERENT peer (a replayed record) are all skipped — and only the matching record is handed to the connector.
+// The outcome class of each of two entries is a solver variable (crypto uninterpreted, see zz_verif_px.go).
+func vpH_C09_px_records() {
+	w := vpNewWorld(vpWorldCfg{P: 1, params: vpSmallParams(), scoring: true, symThresholds: true, doPX: true, noFanout: true})
+	gs := w.n.gs
+	vpAssume(w.up[0] && w.joined)
+	p := w.peers[0]
+	topic := vpT0
+	x := []peer.ID{vpPXPeer(0), vpPXPeer(1)}
+	other := vpPXPeer(2)
+	// class per entry: 0 no record, 1 garbage, 2 valid record naming the advertised peer, 3 valid record naming another
+	// peer, 4 valid envelope of another record type
+	var cls [2]int
+	var px []*pb.PeerInfo
+	for k := 0; k < 2; k++ {
+		cls[k] = vpInt("px_record_class", 0, 4)
+		cands := []*pb.PeerInfo{vpPXInfo(x[k], 0, ""), vpPXInfo(x[k], vpEnvGarbage, ""), vpPXInfo(x[k], vpEnvPeerRec, x[k]), vpPXInfo(x[k], vpEnvPeerRec, other), vpPXInfo(x[k], vpEnvBogus, "")}
+		px = append(px, cands[cls[k]])
+	}
+	gs.handlePrune(p, &pb.ControlMessage{Prune: []*pb.ControlPrune{{TopicID: &topic, Peers: px}}})
+	var got [2]int
+	var withRec [2]bool
+	n := len(gs.connect)
+	for n > 0 {
+		ci := <-gs.connect
+		n--
+		hit := false
+		for k := 0; k < 2; k++ {
+			if ci.p == x[k] {
+				got[k]++
+				withRec[k] = ci.spr != nil
+				hit = true
+			}
+		}
+		vpAssert(hit, "only advertised peers are dialled")
+	}
+	accept := w.score[0] >= gs.acceptPXThreshold
+	for k := 0; k < 2; k++ {
+		follow := accept && (cls[k] == 0 || cls[k] == 2)
+		if follow {
+			vpAssert(got[k] == 1, "an entry without record, or with a valid record naming the advertised peer, is followed once when the pruner meets the accept-PX threshold")
+			vpAssert(withRec[k] == (cls[k] == 2), "the connector is handed the signed record exactly when a valid matching one was supplied")
+		} else {
+			vpAssert(got[k] == 0, "entries from a pruner below the accept-PX threshold, and entries whose record is undecodable, of another type or names another peer, are not followed")
+		}
+	}
+	vpCover(accept && cls[0] == 3 && cls[1] == 2, "replayed record skipped, matching record followed")
+	vpCover(accept && cls[0] == 4 && cls[1] == 0, "record of another type skipped, bare entry followed")
+}
+
 // negative_graft: a GRAFT from a negatively scored (or direct / backed-off) peer is refused with a PRUNE that carries no
 // peer exchange, and never admitted (the admission harness of C07, run with peer exchange enabled).
 func vpH_C09_negative_graft() { vpH_C07_handleGraft() }
+
+// negative_join / negative_heartbeat: the other two graft sites — Join (fresh selection AND promotion of an existing
+// fanout set, whose members need only have met the publish threshold) and the heartbeat — never graft a negatively
+// scored peer, and the heartbeat prunes one (shared with C07).
+func vpH_C09_negative_join() { vpH_C07_join() }
